@@ -9,7 +9,7 @@
    on the names of locals, the order of the loop's state tuple, the polarity of a condition or on helper functions. *)
 From Coq Require Import List ZArith Lia Bool Arith ZifyBool.
 From V Require Import Lib.Enc Gen.Cryptz Model.Aes Model.Crypt Lib.GoSem Lib.GoSemRec Lib.GoSemStd Proofs.GoSemFacts
-  Gen.CryptCode Run.C09Code Proofs.CryptKdf.
+  Gen.CryptCode Run.C09Code.
 Import ListNotations.
 Local Open Scope Z_scope.
 Arguments Z.mul : simpl never.
@@ -304,6 +304,8 @@ Ltac ev2 := first
  | progress autounfold with go2v_aux ].
 
 (* ---- the decryptors: both sides are evaluated together *)
+Lemma slice_ok (l : bytes) a b : (a <= b)%nat -> (b <= length l)%nat -> Crypt.slice l a b = Some (firstn (b - a) (skipn a l)).
+Proof. intros H1 H2. unfold Crypt.slice. destruct (Nat.leb_spec a b), (Nat.leb_spec b (length l)); try lia. reflexivity. Qed.
 Lemma slice_from_nat (l : bytes) a : (a <= length l)%nat -> Crypt.slice l a (length l) = Some (skipn a l).
 Proof. intros H. rewrite slice_ok by lia. rewrite firstn_all2; [reflexivity|]. rewrite skipn_length. lia. Qed.
 Lemma m_slice_nat0 (l : list Z) b : m_slice l 0 (Z.of_nat b) = lift (Crypt.slice l 0 b).
